@@ -726,6 +726,48 @@ def inject(ctx):
         for op in cf.block_operands(bi):
             if op.get('k') == 'Const' and (op.get('text') or '').startswith('b"') and '_' in op['text']:
                 fs = op['text']
+    # the name: the base function's own name, replaced by `<base field>_<own name>` exactly when the own name is already taken —
+    # decided per function (nothing carried over from the previous function of the loop)
+    okren, detren = False, 'pushed value not read'
+    try:
+        from mirlib import _edge_conds
+        pv_ = strip(cf.expr_of_operand(pushes[0]['term']['args'][1])) if len(pushes) == 1 else ('x',)
+        nv_ = strip(dict(pv_[2]).get('name', ('x',))) if pv_[0] == 'agg' else (pv_ if pv_[0] == 'var' else ('x',))
+        if nv_[0] == 'field' and nv_[2] == 'name':
+            nv_ = strip(nv_[1])
+        if nv_[0] == 'var':
+            dsn = cf.defs().get(nv_[1], [])
+            overs, bases2 = [], []
+            for dd in dsn:
+                de = cf.expr_of_def(dd)
+                (overs if any(isinstance(x, tuple) and x and x[0] == 'call' and x[1].endswith('fmt::format') for x in walk(de)) else bases2).append((dd, de))
+            if not overs:
+                # `std::mem::replace(&mut function.name, prefixed)`: the new name is stored through the reference
+                for c_ in cf.calls(lambda r: r['path'] and re.search(r'mem::(replace|swap)$', r['path'])):
+                    a0_ = c_['term']['args'][0]
+                    tgt_ = strip(cf.expr_of_operand(a0_))
+                    if tgt_ == nv_ or (tgt_[0] in ('ref', 'addr') and strip(tgt_[1]) == nv_) or any(y == nv_ for y in walk(tgt_)):
+                        overs.append(((c_['block'],), expand(cf, cf.expr_of_operand(c_['term']['args'][1]))))
+            if len(overs) == 1:
+                dd, de = overs[0]
+                conds = [(c_, l_) for b_, c_, l_ in _edge_conds(cf, dd[0])]
+                cond_ok = len(conds) == 1 and conds[0][1] is True and is_call(strip(conds[0][0]), 'contains')
+                disp = [strip(x[2][0]) for x in walk(de) if isinstance(x, tuple) and x and x[0] == 'call' and re.search(r"Argument(::<[^>]*>)?::new_display$", x[1])]
+                def own_name(a):
+                    a = strip(expand(cf, a))
+                    return any(isinstance(y, tuple) and y and ((y[0] == 'field' and y[2] == 'name') or y == nv_) for y in walk(a)) and not any(
+                        isinstance(y, tuple) and y and y[0] == 'var' and y != nv_ and not str(cf.names.get(y[1], '')).startswith('function') for y in walk(a))
+                args_ok = len(disp) == 2 and disp[0][0] in ('upvar', 'arg') and own_name(disp[1])
+                fmt = [x for x in walk(de) if isinstance(x, tuple) and x and x[0] == 'bytes'] or [x for x in walk(de) if isinstance(x, tuple) and x and x[0] == 'str']
+                sep_ok = '_' in show(de)
+                okren = cond_ok and args_ok and sep_ok and len(bases2) >= 1
+                detren = 'renamed under %s; arguments %s; base definitions %d' % ([(show(c_)[:40], l_) for c_, l_ in conds], [show(a_)[:30] for a_ in disp], len(bases2))
+            else:
+                detren = '%d renaming definitions of the name' % len(overs)
+    except Exception as e_:
+        detren = 'not understood: %r' % (e_,)
+    ctx.ob(['C07'], 'R-SLP', 'C07|rename-only-on-clash', okren,
+           'an injected function keeps its own name unless that name is already taken, and then becomes `<base field>_<own name>` — decided for this function alone: %s' % detren, loc(cf.span))
     ctx.ob(['C07', 'C04'], 'R-SLP', 'C07|forwarding-body', okb and len(ren) == 1 and fs is not None,
            'an injected function forwards to field <base field>.<original name>; on a name clash it is renamed `<base>_<name>` (format %s)' % fs, loc(cf.span))
     # everything else (visibility, docs, arguments, return type, convention) is the base function's own: the pushed value is a
